@@ -134,11 +134,19 @@ pub fn check(env: &Env, c: &Case, st: &mut Stats) -> CaseResult {
             let aq = Q::new(a.0.into(), a.1.into());
             st.eval();
             if *wrong_dims {
-                // an amount of another dimensionality
+                // an amount of another dimensionality: either a stranger (given side x mol),
+                // or - for an even denominator - the dimensionality of the side that is asked
+                // for (`mass of (3 kg water)`: the amount names the wrong side of the property)
+                let asked_dims = if *forward { outd.clone() } else { ind.clone() };
                 let mut other = gd.clone();
-                *other.entry("mol".into()).or_insert(0) += 1;
-                if other.get("mol") == Some(&0) {
-                    other.insert("mol".into(), 2);
+                if a.1 % 2 == 0 && !asked_dims.is_empty() && asked_dims != gd {
+                    other = asked_dims;
+                    st.class("wrong_dimension_amount_is_asked_side");
+                } else {
+                    *other.entry("mol".into()).or_insert(0) += 1;
+                    if other.get("mol") == Some(&0) {
+                        other.insert("mol".into(), 2);
+                    }
                 }
                 // a zero amount is refused as a division by zero before dimensions matter
                 let a = if a.0 == 0 { (1, 1) } else { *a };
@@ -504,6 +512,7 @@ pub fn run(cx: &Cx) -> Report {
             items.push(Case::Prop { sub: sub.clone(), prop: prop.clone(), forward, a: (3 + i as u64 % 7, 1), wrong_dims: false });
             items.push(Case::Prop { sub: sub.clone(), prop: prop.clone(), forward, a: (5, 3 + i as u64 % 11), wrong_dims: false });
             items.push(Case::Prop { sub: sub.clone(), prop: prop.clone(), forward, a: (2, 1), wrong_dims: true });
+            items.push(Case::Prop { sub: sub.clone(), prop: prop.clone(), forward, a: (3, 2), wrong_dims: true });
         }
     }
     for (i, sub) in t.subs.iter().enumerate() {
